@@ -2,7 +2,7 @@
 C13.panic, C13.alloc, C13.rec, C13.prog, C13.trunc, C13.read, C13.sink."""
 import re
 
-from sa import core, flow, decision, discipline as D
+from sa import bounds, core, flow, decision, discipline as D
 from . import common
 
 DEC_ROOTS = (r"^rbx_binary::from_reader$|^rbx_binary::deserializer::Deserializer::<'db>::deserialize$|^rbx_xml::from_reader$|^rbx_xml::from_reader_default$"
@@ -16,10 +16,6 @@ XR = "rbx_xml::deserializer_core::XmlEventReader::<R>::"
 # (function, kind, fingerprint) -> discharging invariant.  A `*` fingerprint suffix matches by prefix.
 DISCHARGED = {
     (DS + "decode_prop_chunk", "unwrap", "unwrap∘self.instances_by_ref.get_mut(referent)"): "PROV:referents — `referent` ranges over type_info.referents, every one of which decode_inst_chunk inserted into instances_by_ref; entries are removed only by finish(self)",
-    (DS + "decode_prop_chunk", "index", "values[i]"): "values.len() = type_info.referents.len() (vec![_; n]) and i comes from enumerate() over the same referents",
-    ("rbx_binary::core::RbxReadExt::read_interleaved_bytes", "index", "buffer[(i+(len*j))]"): "buffer.len() = len*N, i < len, j < N (index polynomial bound; see C01.alg)",
-    ("rbx_binary::core::RbxReadExt::read_u8", "index", "buffer[0]"): "constant index into [u8; 1]",
-    ("rbx_types::attributes::reader::read_u8", "index", "bytes[0]"): "constant index into [u8; 1]",
     ("rbx_types::attributes::reader::read_exact_or_none", "index", "tmp[range::RangeFrom{…}]"): "n <= buf.len() by the std::io::Read contract (same reliance as std's read_exact)",
     ("rbx_types::material_colors::MaterialColors::decode", "slice-op", "chunks∘buffer"): "chunk size is the constant 3",
     ("rbx_types::material_colors::MaterialColors::decode", "index", "color[0]"): "guarded by `buffer.len() != 69 => Err`; 69 = 23*3 so every chunk has 3 bytes",
@@ -80,15 +76,26 @@ def rule_panic(c, prog, g, dreach):
     R = "C13.panic"
     c.rule(R, "every panic-capable construct (unwrap/expect, panic!/unreachable!/unimplemented!/assert!, indexing, slice ops, integer division) in code reachable from a decoder entry point is enumerated; each must be in the confirmed table with the invariant that discharges it, or it is a violation")
     n = 0
+    computed = 0
     fns_with_sites = 0
     for fn in lib_named(prog, dreach):
         sites = flow.panic_sites(fn)
         if sites:
             fns_with_sites += 1
+        nest = None
         for s in sites:
             n += 1
-            why = lookup(fn.path, s["kind"], s["fp"])
             inst = f"{fn.path}|{s['kind']}|{s['fp']}"
+            if s["kind"] == "index":
+                # computed discharges (sa.bounds): independent of names, loop order and helper structure
+                if nest is None:
+                    nest = bounds.nest_bounds(fn, lambda root, depth, fn=fn: param_dim(fn, root, depth))
+                why_c = bounds.const_index(s) or bounds.enum_index(fn, s) or nest.get(id(s["node"]))
+                if why_c:
+                    computed += 1
+                    c.ok(R, inst)
+                    continue
+            why = lookup(fn.path, s["kind"], s["fp"])
             if why is None:
                 pth = g.path_to(dreach, fn.path)
                 c.violation(R, f"{fn.path}|{s['kind']}|{s['fp']}", f"{fn.path}: `{s['fp']}` ({s['kind']}) can panic on input-controlled data and has no discharging invariant; reachable via {' -> '.join(core.short(p) for p in pth[-4:])}", core.loc(s["node"]), instance=inst)
@@ -111,6 +118,7 @@ def rule_panic(c, prog, g, dreach):
             else:
                 c.ok(R, inst)
     c.floor(R, n, 80, "panic-capable sites reachable from decoders")
+    c.floor(R, computed, 3, "index sites discharged by a computed bound (sa.bounds)")
     c.analysed["decoder_reachable_functions"] = len(dreach)
     c.sample({"rule": R, "sites": n, "functions_with_sites": fns_with_sites, "example_discharge": {"site": DS + "decode_prop_chunk | unwrap∘self.instances_by_ref.get_mut(referent)", "invariant": DISCHARGED[(DS + "decode_prop_chunk", "unwrap", "unwrap∘self.instances_by_ref.get_mut(referent)")]}})
     # the invariant behind PROV:referents: instances_by_ref.remove only in finish; inserts of referents in decode_inst_chunk
@@ -132,6 +140,20 @@ def rule_panic(c, prog, g, dreach):
                 c.ok(R, "deserialize_properties:dead-wildcard")
             else:
                 c.violation(R, "deserialize_properties|wildcard", "deserialize_properties: the `unimplemented!()` arm over DataType is reachable", core.loc(s["node"]), instance="deserialize_properties:dead-wildcard")
+
+
+def param_dim(fn, root, depth):
+    """length of dimension `depth` of a slice / array-of-arrays parameter, as a polynomial symbol"""
+    from sa.algebra import Poly
+    for prm in fn.params:
+        if prm.get("lid") == root:
+            ty = (prm.get("ty") or "").lstrip("&").replace("mut ", "").strip()
+            if depth == 0 and ty.startswith("["):
+                return Poly.sym(f"len{root}")
+            m = re.match(r"^\[\[.*; (\w+)\]\]$", ty)
+            if depth == 1 and m:
+                return Poly.sym("N:" + m.group(1)) if not m.group(1).isdigit() else Poly.const(int(m.group(1)))
+    return None
 
 
 def provenance_referents(fn, node):
@@ -267,8 +289,12 @@ def taint_of(fn, e, env, depth=6):
     return "clean"
 
 
+OLDKEYS = {}
+
+
 def rule_alloc(c, prog, g, dreach):
     R = "C13.alloc"
+    ordinal = {}
     c.rule(R, "an integer read from the input (read_le_u32 …, FileHeader / ChunkHeader fields) must not reach an allocation size (with_capacity, vec![_; n], reserve) unless bounded by the bytes actually held (min(..), len() of held data)")
     n = 0
     for fn in lib_named(prog, dreach):
@@ -296,7 +322,13 @@ def rule_alloc(c, prog, g, dreach):
             if t == "clean":
                 c.ok(R, inst)
             else:
-                c.violation(R, f"{fn.path}|{name}|{core.fingerprint(size, 4)}", f"{fn.path}: `{name}({core.fingerprint(size, 4)})` sizes an allocation from an integer read from the input ({t[6:]}) without bounding it by the bytes available: a few bytes of input can request gigabytes (abort / OOM)", core.loc(x), instance=inst)
+                # a site is identified by function, allocator and the *origin* of the tainted size (header field /
+                # read primitive), numbered among equals in source order — not by the names of intermediate locals
+                ordk = (fn.path, name, t[6:])
+                ordinal[ordk] = ordinal.get(ordk, 0) + 1
+                key = f"{fn.path}|{name}|from {t[6:]}#{ordinal[ordk]}"
+                OLDKEYS[key] = f"C13.alloc|{fn.path}|{name}|{core.fingerprint(size, 4)}"
+                c.violation(R, key, f"{fn.path}: `{name}({core.fingerprint(size, 4)})` sizes an allocation from an integer read from the input ({t[6:]}) without bounding it by the bytes available: a few bytes of input can request gigabytes (abort / OOM)", core.loc(x), instance=inst)
     c.floor(R, n, 25, "allocation sites reachable from decoders")
 
 
